@@ -443,10 +443,77 @@ def _start_failure_with_jobs_out(case, o):
     return bool(direct) and local_raise and bool(o["pending_jobs"]) and all(i in o["pending_jobs"] for i in still)
 
 
+# =========================================================================== If-switch failing with a stale truth value
+class BadBool:
+    """a value whose truth cannot be evaluated (like an array with several elements): bool() raises"""
+    def __bool__(self):
+        raise ValueError("the truth value is ambiguous")
+
+
+from pyiron_workflow.nodes.function import as_function_node as _afn  # noqa: E402
+
+
+@_afn("y")
+def IfSrc(x):
+    return BadBool() if x < 0 else x
+
+
+def run_iffail(case):
+    """src -> If -> (true: a | false: b); the runs listed in case['xs'] one after the other on the same objects; a
+    negative x makes the If node's evaluation RAISE -- it holds a truth value from the previous run at that moment"""
+    from pyiron_workflow import Workflow
+    from pyiron_workflow.nodes.standard import If
+    nodes.reset()
+    wf = Workflow("wf", automate_execution=False)
+    wf.recovery = None
+    wf.src = IfSrc(x=0)
+    wf.sw = If(condition=wf.src)
+    wf.a = nodes.Lin0(tag=1, k=1)
+    wf.b = nodes.Lin0(tag=2, k=2)
+    wf.src >> wf.sw
+    wf.sw.signals.output.true >> wf.a.signals.input.run
+    wf.sw.signals.output.false >> wf.b.signals.input.run
+    wf.starting_nodes = [wf.src]
+    runs = []
+    for x in case["xs"]:
+        for n in (wf, wf.src, wf.sw, wf.a, wf.b):
+            n.failed = False
+        wf.src.inputs.x.value = x
+        try:
+            wf.run()
+            end = "ok"
+        except Exception as e:      # noqa: BLE001
+            end = nodes.exc_kind(e)
+        runs.append([x, end, list(wf.provenance_by_execution), bool(wf.sw.failed), bool(wf.failed)])
+    return {"runs": runs}
+
+
+def iffail_oracle(case, o):
+    if not isinstance(o, dict):
+        return f"crash: {o}"
+    for x, end, prov, swf, wff in o["runs"]:
+        if x < 0:
+            if not swf or not wff:
+                return "wrong-failed-flags: the If node's evaluation raised but it / the workflow is not marked failed"
+            if end == "ok":
+                return "swallowed: the If node failed but run() returned normally"
+            if "a" in prov or "b" in prov:
+                return (f"ran-after-failure: {[n for n in prov if n in ('a', 'b')]} executed in the run in which the If node "
+                        f"FAILED (it emitted a branch signal from the truth value of an earlier run)")
+        else:
+            want = "a" if x else "b"
+            if end != "ok" or [n for n in prov if n in ("a", "b")] != [want]:
+                return f"wrong-branch: x={x} ended {end} with {prov}"
+    return None
+
+
 # =========================================================================== framework API
 def generate(ctx):
     rng = ctx.rng
-    return [gen_flow(rng) for _ in range(ctx.n(450, 5000))] + [gen_dag(rng) for _ in range(ctx.n(300, 4000))]
+    out = [gen_flow(rng) for _ in range(ctx.n(450, 5000))] + [gen_dag(rng) for _ in range(ctx.n(300, 4000))]
+    for _ in range(ctx.n(12, 60)):
+        out.append({"fam": "iffail", "xs": [rng.choice([0, 1, 5, -1, -1]) for _ in range(rng.randint(1, 5))], "suppress": False})
+    return out
 
 
 def corpus(ctx):
@@ -458,6 +525,8 @@ def corpus(ctx):
 
 
 def run_impl(case):
+    if case["fam"] == "iffail":
+        return run_iffail(case)
     return run_flow(case) if case["fam"] == "flow" else run_dag(case)
 
 
@@ -479,6 +548,8 @@ def model_term(case):
 def oracle(case, obs):
     if not isinstance(obs, dict) and obs != "timeout":
         return f"crash: {obs}"
+    if case["fam"] == "iffail":
+        return iffail_oracle(case, obs)
     return flow_oracle(case, obs) if case["fam"] == "flow" else dag_oracle(case, obs)
 
 
@@ -501,6 +572,8 @@ def known(case, obs, verdict):
 def nontrivial(case, obs):
     if not isinstance(obs, dict):
         return False
+    if case["fam"] == "iffail":
+        return any(x < 0 for x in case["xs"]) and any(x >= 0 for x in case["xs"])
     if case["fam"] == "flow":
         return any(obs["failed"]) and len(obs["prov"]) >= 2
     return bool(obs["raised"]) and len(obs["called"]) >= 2
@@ -511,6 +584,10 @@ def key(case):
 
 
 def shrink_candidates(case):
+    if case["fam"] == "iffail":
+        for i in range(len(case["xs"])):
+            yield dict(case, xs=case["xs"][:i] + case["xs"][i + 1:])
+        return
     if case["fam"] == "flow":
         ns = case["nodes"]
         for i, nd in enumerate(ns):
@@ -532,10 +609,12 @@ def shrink_candidates(case):
 
 
 def distribution(results):
-    d = {"flow": 0, "dag": 0, "suppressed": 0, "verdicts": {}, "failing_nodes": 0, "executor_failures": 0, "macro_failures": 0}
+    d = {"flow": 0, "dag": 0, "iffail": 0, "suppressed": 0, "verdicts": {}, "failing_nodes": 0, "executor_failures": 0, "macro_failures": 0}
     for c, enc, v, o in results:
         d[c["fam"]] += 1
         d["suppressed"] += bool(c["suppress"])
+        if c["fam"] == "iffail":
+            continue
         if isinstance(o, dict):
             k = o["verdict"] if isinstance(o["verdict"], str) else o["verdict"][0]
             d["verdicts"][k] = d["verdicts"].get(k, 0) + 1
